@@ -182,6 +182,7 @@ package flow
 // Whole-set load, called by LoadRules with the update lock held: a NEW table is built and swapped in; nothing that
 // existed before — the old table, the lists published in it, the caller's raw lists — is written (requests that hold
 // an old list keep reading it); the raw map is recorded.
+//@ spec func allValidLists(m) = (forall r Str :: has(m, r) ==> allocated(base(m[r]))) && (forall r Str :: forall k Int :: has(m, r) && 0 <= k && k < len(m[r]) ==> validRule(m[r][k]))
 //@ func onRuleUpdate(rawResRulesMap) err
 //@   props C13
 //@   requires[holds-the-update-lock]{C15} wlockcount(updateRuleMux) > 0
@@ -190,18 +191,23 @@ package flow
 //@   ensures[new-table-swapped-in] err == nil ==> tcMap != nil && fresh(tcMap)
 //@   modifies tcMap, currentRules
 //@   loop 1:
-//@     invariant[valid-map-is-new] validResRulesMap != nil && fresh(validResRulesMap)
+//@     invariant[valid-map-is-new] validResRulesMap != nil && fresh(validResRulesMap) && allValidLists(validResRulesMap)
 //@     invariant[nothing-else-written] frame()
 //@   loop 2:
-//@     invariant[valid-map-is-new] validResRulesMap != nil && fresh(validResRulesMap)
-//@     invariant[valid-list-is-new] cap(validResRules) == 0 || fresh(base(validResRules))
+//@     invariant[valid-map-is-new] validResRulesMap != nil && fresh(validResRulesMap) && allValidLists(validResRulesMap)
+//@     invariant[valid-list-is-new] (cap(validResRules) == 0 || fresh(base(validResRules))) && (forall k Int :: 0 <= k && k < len(validResRules) ==> validRule(validResRules[k]))
+//@     invariant[valid-list-is-not-in-the-map-yet] forall r Str :: has(validResRulesMap, r) ==> base(validResRulesMap[r]) != base(validResRules)
 //@     invariant[nothing-else-written] frame()
 //@   loop 3:
 //@     invariant[clone-is-new] tcMapClone != nil && fresh(tcMapClone) && (forall r Str :: has(tcMapClone, r) ==> fresh(base(tcMapClone[r])))
+//@     invariant[valid-lists] allValidLists(validResRulesMap)
+//@     invariant[clone-lists-are-not-rule-lists] forall r Str :: forall q Str :: has(tcMapClone, r) && has(validResRulesMap, q) ==> base(tcMapClone[r]) != base(validResRulesMap[q])
 //@     invariant[nothing-else-written] frame()
 //@   loop 4:
 //@     invariant[new-table] m != nil && fresh(m)
 //@     invariant[clone-lists-are-private] forall r Str :: has(tcMapClone, r) ==> fresh(base(tcMapClone[r]))
+//@     invariant[clone-lists-are-not-rule-lists] forall r Str :: forall q Str :: has(tcMapClone, r) && has(validResRulesMap, q) ==> base(tcMapClone[r]) != base(validResRulesMap[q])
+//@     invariant[valid-lists] allValidLists(validResRulesMap)
 //@     invariant[nothing-else-written] frame()
 //@ func LoadRules(rules) (changed, err)
 //@   props C13
@@ -265,12 +271,20 @@ package flow
 
 // The validator and the controller builder are not under contract here (floats, user-registered generator functions):
 // assumed not to write anything that existed before, except that the builder edits the list it is GIVEN in place.
+// the validator, field by field (string emptiness through the uninterpreted length; int32 conversions as written)
+//@ spec func validMemAdaptive(r) = r.LowMemUsageThreshold > 0 && r.HighMemUsageThreshold > 0 && r.HighMemUsageThreshold < r.LowMemUsageThreshold && r.MemLowWaterMarkBytes > 0 && r.MemHighWaterMarkBytes > 0 && r.MemHighWaterMarkBytes <= int64(system_metric.TotalMemorySize) && r.MemLowWaterMarkBytes < r.MemHighWaterMarkBytes
+//@ spec func validRule(r) = r != nil && r.Resource != "" && r.Threshold >= 0.0 && int32(r.TokenCalculateStrategy) >= 0 && int32(r.ControlBehavior) >= 0 && r.RelationStrategy >= CurrentResource && r.RelationStrategy <= AssociatedResource && !(r.RelationStrategy == AssociatedResource && r.RefResource == "") && (r.TokenCalculateStrategy == WarmUp ==> r.WarmUpPeriodSec > 0 && r.WarmUpColdFactor != 1) && (r.TokenCalculateStrategy == MemoryAdaptive ==> validMemAdaptive(r))
 //@ func IsValidRule(rule) err
-//@   assumed
+//@   props C13
+//@   objinv system_metric.TotalMemorySize < 9223372036854775808
 //@   panics never
+//@   ensures[iff] err == nil <==> validRule(rule)
 //@   modifies nothing
+// the controller builder (user-registered generator functions): assumed; it is only ever handed validated rules, and
+// it edits the list it is GIVEN in place
 //@ func buildResourceTrafficShapingController(res, rulesOfRes, oldResTcs) r
 //@   assumed
+//@   requires[all-valid] forall k Int :: 0 <= k && k < len(rulesOfRes) ==> validRule(rulesOfRes[k])
 //@   panics may
 //@   ensures cap(r) == 0 || fresh(base(r))
 //@   modifies elems(oldResTcs)
@@ -289,5 +303,6 @@ package flow
 //@   modifies mapof(tcMap), mapof(currentRules)
 //@   loop 1:
 //@     invariant[valid-list-is-private] cap(validResRules) == 0 || fresh(base(validResRules))
+//@     invariant[only-valid-rules-kept] forall k Int :: 0 <= k && k < len(validResRules) ==> validRule(validResRules[k])
 //@     invariant[nothing-written] frame()
 //@ lockorder updateRuleMux tcMux {C15}
